@@ -174,7 +174,12 @@ func byteTargets(f fkey) []byteTarget {
 		}},
 		{"cwt.Claims_UnmarshalCBOR", func(b []byte) {
 			cl := &cwt.Claims{Issuer: "stale", CWTID: []byte{1, 2, 3}}
-			if cl.UnmarshalCBOR(b) == nil {
+			// (called through an interface: the harness also builds against trees in which the method does not exist)
+			dec := func(b []byte) error { return key.UnmarshalCBOR(b, cl) }
+			if u, ok := any(cl).(interface{ UnmarshalCBOR([]byte) error }); ok {
+				dec = u.UnmarshalCBOR
+			}
+			if dec(b) == nil {
 				cl.Bytesify()
 				key.MarshalCBOR(cl)
 			}
